@@ -160,6 +160,12 @@ func (c *chanState) ctx() string {
 	if c.w.mitm != nil && c.w.mitm.fired.Load() {
 		s += "/after-tamper"
 	}
+	if c.w.qadv != nil {
+		s += "/after-tamper"
+	}
+	if c.w.p.udp.drop > 0 || c.w.p.udp.dup > 0 {
+		s += "/after-loss"
+	}
 	if c.w.peerClosed.Load() {
 		s += "/after-peer-close"
 	}
@@ -443,7 +449,7 @@ func (c *chanState) reader(e *end) {
 			// a zero-length Read returns 0 (checked above: n <= len(buf)) and changes nothing: whatever it did to the
 			// layer's state shows in the reads that follow
 			w.probe("zero-length-read")
-			if rem > 0 && !fresh {
+			if rem > 0 && !fresh && !isQuicLayer(w.p.layer) {
 				w.probe("zero-length-read-inside-a-frame")
 			}
 			if w.p.layer == layNoise && fresh && err == nil {
@@ -489,7 +495,7 @@ func (c *chanState) reader(e *end) {
 				return
 			}
 			if c.timeouts > p.retries {
-				if w.p.stratum == stStall {
+				if w.p.stratum == stStall && !isQuicLayer(w.p.layer) {
 					c.rEnd = "gave-up"
 					return
 				}
